@@ -169,4 +169,4 @@ class TwoLevelCheckpointSchedule(CheckpointSchedule):
         bool
             Whether this schedule uses the given storage type.
         """
-        return storage_type == self._binomial_storage
+        return storage_type in {StorageType.DISK, self._binomial_storage}
